@@ -67,7 +67,18 @@ class BuiltinMixin:
         if isinstance(x, Exc):
             if isinstance(c, PyC):
                 return [(st, PyC(issubclass(x.etype, c.obj)))]
-        lx, lc = self.lift(x), self.lift(c)
+        lx = self.lift(x)
+        from .terms import isinstance_any_term
+        classes = None
+        if isinstance(c, PyC) and isinstance(c.obj, type):
+            classes = [c.obj]
+        elif isinstance(c, PyC) and isinstance(c.obj, tuple) and all(isinstance(k, type) for k in c.obj):
+            classes = list(c.obj)
+        elif isinstance(c, PyList) and all(isinstance(k, PyC) and isinstance(k.obj, type) for k in c.items):
+            classes = [k.obj for k in c.items]
+        if classes is not None:
+            return [(st, mkB(isinstance_any_term(asV(lx), classes, self.ctab)))]
+        lc = self.lift(c)
         return [(st, mkB(f"(py_isinstance {asV(lx)} {asV(lc)})"))]
 
     def b_bool(self, st, args, kwargs, node):
